@@ -16,12 +16,14 @@
 (*   empty | chr c | dot | esc e | cls neg items | cat xs | alt xs         *)
 (*   grp id b | ncg b | mod b add rem | rep b min max greedy               *)
 (*   bref n | kref ids | look b behind neg | bol | eol | wb neg            *)
+(*   prop name neg (\p{..}) | vcls neg x (a class set, see ClassSet.tla)   *)
 (* Group ids are 0-based in left-parenthesis order; max = -1 is infinity.  *)
-(* env = [i, m, s, u, dev]: ignoreCase, multiline, dotAll, unicode-or-v, deviations.        *)
+(* env = [i, m, s, u, v, dev]: ignoreCase, multiline, dotAll, unicode-or-v, unicodeSets,    *)
+(* deviations.                                                             *)
 (* A state is [p |-> position (0..Len(h)), c |-> captures], captures being *)
 (* a sequence of <<start, end>> pairs or Undef.                            *)
 (***************************************************************************)
-EXTENDS Alphabet, SequencesExt, Functions
+EXTENDS ClassSet, SequencesExt, Functions
 
 Undef == <<-1, -1>>
 
@@ -43,11 +45,10 @@ GroupsIn(n) ==
 (* everything below is the standard.  A deviation changes the semantics to *)
 (* what the code is known to do, so that an observation can be classified  *)
 (* as "exactly that known defect" instead of being waved through:          *)
-(*  D8  legacy (non-u) ignoreCase uses the simple upper-case table for     *)
-(*      literals and backreferences (so U+017F ~ S and U+0131 ~ I, which   *)
-(*      Canonicalize forbids) and closes classes and class escapes under   *)
-(*      simple case *folding*; negated class escapes are complemented      *)
-(*      after that closure.                                                *)
+(*  D8  legacy (non-u) ignoreCase closes classes and class escapes under   *)
+(*      simple case *folding* instead of the legacy relation (so [k]       *)
+(*      matches U+212A and [s] matches U+017F); negated class escapes are  *)
+(*      complemented after that closure.                                   *)
 (*  D9  a named backreference to a duplicated name is an alternation of    *)
 (*      numbered backreferences (an undefined one matches empty first).    *)
 (*  D10 under iu/iv a \W inside a bracket is the complement of the basic   *)
@@ -56,7 +57,8 @@ GroupsIn(n) ==
 D8On(env) == "D8" \in env.dev /\ env.i /\ ~env.u
 D10On(env) == "D10" \in env.dev /\ env.i /\ env.u
 
-LegacyCanonDev(c) == IF c = 383 THEN 83 ELSE IF c = 305 THEN 73 ELSE LegacyCanon(c)
+\* (literals and backreferences follow the standard since the ASCII guard was repaired)
+LegacyCanonDev(c) == LegacyCanon(c)
 
 \* Canonicalize as applied to literals and backreferences.
 CanonX(c, env) == IF D8On(env) THEN LegacyCanonDev(c) ELSE Canon(c, env.i, env.u)
@@ -70,7 +72,9 @@ EscapeHas(e, d, env) ==
   CASE e = "d" -> IsDigitCp(d)
     [] e = "D" -> ~IsDigitCp(d)
     [] e = "w" -> IsWordCp(d, env.i, env.u)
-    [] e = "W" -> IF D10On(env) THEN ~IsBasicWordCp(d) ELSE ~IsWordCp(d, env.i, env.u)
+    [] e = "W" -> IF D10On(env) THEN ~IsBasicWordCp(d)
+                  ELSE IF D8On(env) THEN ~(\E x \in EqClass(d, TRUE, TRUE) : IsBasicWordCp(x))
+                  ELSE ~IsWordCp(d, env.i, env.u)
     [] e = "s" -> d \in WhiteSpaceChars
     [] e = "S" -> d \notin WhiteSpaceChars
 
@@ -78,6 +82,7 @@ ItemHas(it, d, env) ==
   CASE it.k = "c" -> d = it.c
     [] it.k = "r" -> it.lo <= d /\ d <= it.hi
     [] it.k = "e" -> EscapeHas(it.e, d, env)
+    [] it.k = "p" -> (d \in PropSet(it.name)) # it.neg
 
 \* CharacterSetMatcher: "there exists a member a of A such that
 \* Canonicalize(a) = Canonicalize(ch)".
@@ -94,11 +99,45 @@ CharOk(n, ch, env) ==
          IF D8On(env) /\ n.e \in {"D", "W", "S"}
          THEN ~(\E d \in EqX(ch, env) : EscapeHas(Positive(n.e), d, env))
          ELSE \E d \in EqX(ch, env) : EscapeHas(n.e, d, [env EXCEPT !.dev = {}])
-    [] n.t = "cls" -> ClassFound(n.items, ch, env) # n.neg
+    [] n.t = "cls" ->
+         \* with v the class is a class set: the union of its items, computed on folded code points
+         IF env.v THEN SetHas(ClassValue(n.neg, [k |-> "u", xs |-> n.items], env.i).cs, ch, env.i)
+         ELSE ClassFound(n.items, ch, env) # n.neg
+    [] n.t = "prop" ->
+         \* \p{..} / \P{..} outside a class: with v the complement is taken on folded code points,
+         \* with u it is the plain complement followed by the canonical comparison
+         IF env.v THEN SetHas(Denote([k |-> "p", name |-> n.name, neg |-> n.neg], env.i).cs, ch, env.i)
+         ELSE \E d \in EqX(ch, env) : (d \in PropSet(n.name)) # n.neg
+    [] n.t = "set" -> SetHas(n.cs, ch, env.i)
 
-IsCharNode(n) == n.t \in {"chr", "dot", "esc", "cls"}
+IsCharNode(n) == n.t \in {"chr", "dot", "esc", "cls", "prop", "set"}
+
+\* A class set [..] under v with strings is the alternation of its strings, longest first, then
+\* its single code points, then the empty string (22.2.2.9, CharacterClass with strings).
+VclsNode(n, env) ==
+  LET val == ClassValue(n.neg, n.x, env.i)
+      strs == SortByLenDesc({t \in val.ss : Len(t) >= 2})
+      alts == [k \in DOMAIN strs |-> [t |-> "cat", xs |-> [j \in DOMAIN strs[k] |-> [t |-> "chr", c |-> strs[k][j]]]]]
+      single == <<[t |-> "set", cs |-> val.cs]>>
+      empty == IF <<>> \in val.ss THEN <<[t |-> "empty"]>> ELSE <<>>
+  IN [t |-> "alt", xs |-> alts \o single \o empty]
 
 WordAt(h, k, env) == k >= 1 /\ k <= Len(h) /\ IsWordCp(h[k], env.i, env.u)
+
+RECURSIVE Prepare(_, _)
+\* Evaluate every class set of a tree once (its value depends only on the i flag in force
+\* at that point), so that matching does not recompute it per character.
+Prepare(n, env) ==
+  CASE n.t = "vcls" -> VclsNode(n, env)
+    [] n.t = "cls" /\ env.v -> [t |-> "set", cs |-> ClassValue(n.neg, [k |-> "u", xs |-> n.items], env.i).cs]
+    [] n.t = "prop" /\ env.v -> [t |-> "set", cs |-> Denote([k |-> "p", name |-> n.name, neg |-> n.neg], env.i).cs]
+    [] n.t = "mod" ->
+         LET on(f, cur) == IF \E k \in DOMAIN n.add : n.add[k] = f THEN TRUE
+                           ELSE IF \E k \in DOMAIN n.rem : n.rem[k] = f THEN FALSE ELSE cur
+         IN [n EXCEPT !.b = Prepare(n.b, [env EXCEPT !.i = on("i", env.i)])]
+    [] n.t \in {"grp", "ncg", "rep", "look"} -> [n EXCEPT !.b = Prepare(n.b, env)]
+    [] n.t \in {"cat", "alt"} -> [n EXCEPT !.xs = [k \in DOMAIN n.xs |-> Prepare(n.xs[k], env)]]
+    [] OTHER -> n
 
 (***************************************************************************)
 (* The matchers.                                                           *)
@@ -113,6 +152,7 @@ Run(n, st, fwd, h, env) ==
          ELSE LET ch == IF fwd THEN h[pos + 1] ELSE h[pos]
                   np == IF fwd THEN pos + 1 ELSE pos - 1
               IN IF CharOk(n, ch, env) THEN <<[st EXCEPT !.p = np]>> ELSE <<>>
+    [] n.t = "vcls" -> Run(VclsNode(n, env), st, fwd, h, env)
     [] n.t = "cat" -> CatRun(IF fwd THEN n.xs ELSE Reverse(n.xs), 1, st, fwd, h, env)
     [] n.t = "alt" -> FlatMap(LAMBDA x : Run(x, st, fwd, h, env), n.xs)
     [] n.t = "ncg" -> Run(n.b, st, fwd, h, env)
@@ -220,6 +260,7 @@ RECURSIVE Cost(_, _, _, _, _), CatCost(_, _, _, _, _, _), RepCost(_, _, _, _, _,
 Cost(n, st, fwd, h, env) ==
   CASE n.t = "cat" -> 1 + CatCost(IF fwd THEN n.xs ELSE Reverse(n.xs), 1, st, fwd, h, env)
     [] n.t = "alt" -> 1 + FoldLeft(LAMBDA acc, x : acc + Cost(x, st, fwd, h, env), 0, n.xs)
+    [] n.t = "vcls" -> Cost(VclsNode(n, env), st, fwd, h, env)
     [] n.t \in {"ncg", "grp", "mod"} -> 1 + Cost(n.b, st, fwd, h, env)
     [] n.t = "look" -> 1 + Cost(n.b, st, ~n.behind, h, env)
     [] n.t = "rep" -> 1 + RepCost(n.b, n.min, n.max, n.greedy, GroupsIn(n.b), st, fwd, h, env)
